@@ -154,7 +154,7 @@ def run(ctx):
 def histories(ctx):
     from spacepackets.ecss.pus_verificator import PusVerificator
     rng = ctx.rng
-    for h in range(ctx.q(400, 20000)):
+    for h in range(ctx.q(1500, 60000)):
         n = rng.randrange(1, 7)
         w = World(n)
         v = PusVerificator()
